@@ -239,6 +239,7 @@ class TUFacts:
         self.vars = []
         self.enums = []
         self.types = []
+        self.ctypes = []
         self.summary = {}
         self.by_id = {}
         with open(path) as f:
@@ -257,6 +258,7 @@ class TUFacts:
                     self.enums.append(o)
                 elif r == "types":
                     self.types = o["tab"]
+                    self.ctypes = o.get("ctab") or []
                 elif r == "summary":
                     self.summary = o
         if not self.summary:
@@ -266,6 +268,13 @@ class TUFacts:
         if not tid:
             return ""
         return self.types[tid - 1]
+
+    def TC(self, tid):
+        """Canonical spelling of a type (typedefs and member aliases resolved)."""
+        if not tid:
+            return ""
+        c = self.ctypes[tid - 1] if tid - 1 < len(self.ctypes) else ""
+        return c or self.types[tid - 1]
 
 
 class Facts:
